@@ -68,6 +68,7 @@ func runC06(c *Ctx) {
 		}
 	}
 
+	c06DeprecatedCategories(c, t)
 	fr := p.Func("private/bufpkg/bufcheck", "newRulesConfig")
 	if fr == nil {
 		c.Fail("RESOLUTION-PIPELINE", "anchor", token.NoPos, "newRulesConfig not found")
@@ -378,29 +379,7 @@ func c06Suppression(c *Ctx, t *checkTables) {
 		return
 	}
 	cfgObj := il.Info().Defs[il.Decl.Type.Params.List[0].Names[0]]
-	nTrue := 0
-	ast.Inspect(il.Decl.Body, func(n ast.Node) bool {
-		r, ok := n.(*ast.ReturnStmt)
-		if !ok || len(r.Results) != 2 {
-			return true
-		}
-		tv, has := info.Types[r.Results[0]]
-		if !has || tv.Value == nil || tv.Value.ExactString() != "true" {
-			return true
-		}
-		nTrue++
-		guarded := false
-		for cur := p.Parent(r); cur != nil && cur != il.Decl; cur = p.Parent(cur) {
-			if ifs, ok := cur.(*ast.IfStmt); ok && (usesObj(info, ifs.Cond, cfgObj) || (ifs.Init != nil && usesObj(info, ifs.Init, cfgObj))) {
-				guarded = true
-			}
-		}
-		c.Ob(rule, "ignoreFileLocation/return-true-guarded", r.Pos(), guarded, true, "`return true` is nested in a condition that reads the config (an empty config suppresses nothing): %v", guarded)
-		return true
-	})
-	if nTrue < 4 {
-		c.Fail(rule, "ignoreFileLocation/return-true-count", il.Decl.Pos(), "only %d `return true` found (expected ≥ 4)", nTrue)
-	}
+	ruleSuppressionGuarded(c, rule)
 	// the comment-directive call lies under AllowCommentIgnores && CommentIgnorePrefix != ""
 	ast.Inspect(il.Decl.Body, func(n ast.Node) bool {
 		call, ok := n.(*ast.CallExpr)
@@ -520,4 +499,41 @@ func c06Suppression(c *Ctx, t *checkTables) {
 		})
 	}
 	c.Ob("EXCLUDE-IMPORTS", "bufcheck/writers", token.NoPos, bad == "" && n >= 2, true, "%d literals set ExcludeImports, each to false or to the exclude-imports option value %s", n, bad)
+}
+
+// ruleSuppressionGuarded (shared by C06 SUPPRESSION-REMOVES and C03 SUPPRESSION-CONFIGURED): every `return true` of the
+// annotation filter (an annotation is dropped) is nested in a condition that reads the configuration - with nothing
+// configured, nothing is suppressed, so no breaking change or lint finding disappears on its own.
+func ruleSuppressionGuarded(c *Ctx, rule string) {
+	p := c.P
+	il := p.Func("private/bufpkg/bufcheck", "ignoreFileLocation")
+	if il == nil || il.Decl.Type.Params == nil || len(il.Decl.Type.Params.List) == 0 || len(il.Decl.Type.Params.List[0].Names) == 0 {
+		c.Fail(rule, "ignoreFileLocation", token.NoPos, "not found")
+		return
+	}
+	info := il.Info()
+	cfgObj := info.Defs[il.Decl.Type.Params.List[0].Names[0]]
+	nTrue := 0
+	ast.Inspect(il.Decl.Body, func(n ast.Node) bool {
+		r, ok := n.(*ast.ReturnStmt)
+		if !ok || len(r.Results) != 2 {
+			return true
+		}
+		tv, has := info.Types[r.Results[0]]
+		if !has || tv.Value == nil || tv.Value.ExactString() != "true" {
+			return true
+		}
+		nTrue++
+		guarded := false
+		for cur := p.Parent(r); cur != nil && cur != il.Decl; cur = p.Parent(cur) {
+			if ifs, ok := cur.(*ast.IfStmt); ok && (usesObj(info, ifs.Cond, cfgObj) || (ifs.Init != nil && usesObj(info, ifs.Init, cfgObj))) {
+				guarded = true
+			}
+		}
+		c.Ob(rule, "ignoreFileLocation/return-true-guarded", r.Pos(), guarded, true, "`return true` is nested in a condition that reads the config (an empty config suppresses nothing): %v", guarded)
+		return true
+	})
+	if nTrue < 4 {
+		c.Fail(rule, "ignoreFileLocation/return-true-count", il.Decl.Pos(), "only %d `return true` found (expected ≥ 4)", nTrue)
+	}
 }
